@@ -5,6 +5,7 @@ use crate::utils::debug::ToJsonCompact;
 use apint::{Int, Width};
 use serde::{Deserialize, Serialize};
 use std::collections::BTreeMap;
+use std::ops::Bound;
 use std::sync::Arc;
 
 /// A memory region is an abstract domain representing a continuous region of memory, e.g. the stack frame of a function.
@@ -106,14 +107,14 @@ impl<T: AbstractDomain + SizedDomain + HasTop + std::fmt::Debug> MemRegion<T> {
             .map(|(pos, elem)| (*pos, u64::from(elem.bytesize()) as i64))
             .last()
         {
-            if prev_pos + prev_size > position {
+            if interval_end(prev_pos, prev_size) > i128::from(position) {
                 inner.values.remove(&prev_pos);
             }
         }
         // remove all other intersecting elements
         let intersecting_elements: Vec<i64> = inner
             .values
-            .range(position..(position + size))
+            .range(interval_bounds(position, interval_end(position, size)))
             .map(|(pos, _elem)| *pos)
             .collect();
         for index in intersecting_elements {
@@ -211,13 +212,15 @@ impl<T: AbstractDomain + SizedDomain + HasTop + std::fmt::Debug> MemRegion<T> {
     /// Emulate a write operation of a value to an unknown offset in the range between `start` and `end`
     /// by merging all values in the range with `Top` (as we don't exactly know which values are overwritten).
     pub fn mark_interval_values_as_top(&mut self, start: i64, end: i64, elem_size: ByteSize) {
-        self.merge_values_intersecting_range_with_top(start, end + u64::from(elem_size) as i64)
+        let range_end = interval_end(end, u64::from(elem_size) as i64);
+        self.merge_values_intersecting_range_with_top(start, range_end)
     }
 
     /// Merge all values intersecting the given range with `Top`.
     /// If `Top` is a maximal element of the value abstract domain,
     /// this effectively removes all values intersecting the range.
-    fn merge_values_intersecting_range_with_top(&mut self, start: i64, end: i64) {
+    /// The (exclusive) `end` of the range may exceed `i64::MAX`.
+    fn merge_values_intersecting_range_with_top(&mut self, start: i64, end: i128) {
         let inner = Arc::make_mut(&mut self.inner);
         // If the previous element intersects the range, merge it with Top
         if let Some((prev_pos, prev_size)) = inner
@@ -226,7 +229,7 @@ impl<T: AbstractDomain + SizedDomain + HasTop + std::fmt::Debug> MemRegion<T> {
             .map(|(pos, elem)| (*pos, u64::from(elem.bytesize()) as i64))
             .last()
         {
-            if prev_pos + prev_size > start {
+            if interval_end(prev_pos, prev_size) > i128::from(start) {
                 let value = inner.values.get(&prev_pos).unwrap();
                 let merged_value = value.merge(&value.top());
                 if merged_value.is_top() {
@@ -239,7 +242,7 @@ impl<T: AbstractDomain + SizedDomain + HasTop + std::fmt::Debug> MemRegion<T> {
         // Merge all other intersecting elements with Top
         let intersecting_elements: Vec<_> = inner
             .values
-            .range(start..end)
+            .range(interval_bounds(start, end))
             .map(|(pos, elem)| (*pos, elem.merge(&elem.top())))
             .collect();
         for (index, merged_value) in intersecting_elements {
@@ -299,13 +302,16 @@ impl<T: AbstractDomain + SizedDomain + HasTop + std::fmt::Debug> MemRegion<T> {
         }
 
         let mut merged_values: BTreeMap<i64, T> = BTreeMap::new();
-        let mut merged_range_end = i64::MIN;
+        let mut merged_range_end = i128::from(i64::MIN);
         for (index, (left, right)) in zipped.iter() {
             let elem_range_end = compute_range_end(*index, *left, *right);
-            if *index >= merged_range_end {
+            if i128::from(*index) >= merged_range_end {
                 // The element does not overlap a previous element
-                if let Some((next_index, _)) = zipped.range((index + 1)..).next() {
-                    if *next_index >= elem_range_end {
+                if let Some((next_index, _)) = zipped
+                    .range((Bound::Excluded(*index), Bound::Unbounded))
+                    .next()
+                {
+                    if i128::from(*next_index) >= elem_range_end {
                         // The element does not overlap a subsequent element
                         if let Some(merged) = merge_or_merge_with_top(*left, *right) {
                             merged_values.insert(*index, merged);
@@ -388,15 +394,33 @@ fn merge_or_merge_with_top<T: AbstractDomain + SizedDomain>(
 
 /// Helper function computing `index` plus the maximum of the bytesizes of `left` and `right`.
 /// Panics if both `left` and `right` are `None`.
-fn compute_range_end<T: SizedDomain>(index: i64, left: Option<&T>, right: Option<&T>) -> i64 {
+fn compute_range_end<T: SizedDomain>(index: i64, left: Option<&T>, right: Option<&T>) -> i128 {
     match (left, right) {
         (Some(left_elem), Some(right_elem)) => {
             let left_size = u64::from(left_elem.bytesize()) as i64;
             let right_size = u64::from(right_elem.bytesize()) as i64;
-            index + std::cmp::max(left_size, right_size)
+            interval_end(index, std::cmp::max(left_size, right_size))
         }
-        (Some(elem), None) | (None, Some(elem)) => index + u64::from(elem.bytesize()) as i64,
+        (Some(elem), None) | (None, Some(elem)) => {
+            interval_end(index, u64::from(elem.bytesize()) as i64)
+        }
         (None, None) => panic!(),
+    }
+}
+
+/// Compute the (exclusive) end `start + size` of an interval of positions in a memory region.
+/// Since the end may exceed `i64::MAX` for positions next to `i64::MAX`, it is computed as an `i128`.
+fn interval_end(start: i64, size: i64) -> i128 {
+    i128::from(start) + i128::from(size)
+}
+
+/// Return the bounds for a range query for all positions from `start` (inclusive) to `end` (exclusive).
+/// If `end` exceeds `i64::MAX` then the range contains all positions from `start` upward.
+fn interval_bounds(start: i64, end: i128) -> (Bound<i64>, Bound<i64>) {
+    match i64::try_from(end) {
+        Ok(end) => (Bound::Included(start), Bound::Excluded(end)),
+        // Sizes are never negative, thus `end` exceeds `i64::MAX` here.
+        Err(_) => (Bound::Included(start), Bound::Unbounded),
     }
 }
 
